@@ -61,6 +61,7 @@ func init() {
 		mutation{"synchronous-off", "kv/sqlite3/sqlite.go", "_pragma=synchronous(1)", "_pragma=synchronous(0)", "dsn"},
 	)
 	addSelfTests("C24",
+		mutation{"legacy-probe-ignores-index", "kv/sqlite3/schema.go", "	ok, err := indexExists(db, \"idx_hash\")\n	if err != nil {\n		return false, err\n	}\n	if !ok {\n		return false, nil\n	}\n	return true, nil", "	return true, nil", "refuse-before-touch"},
 		mutation{"refuse-after-touch", "kv/sqlite3/schema.go", "	if uv > latestVersion {\n		return fmt.Errorf(\"database user_version %d is newer than supported version %d\", uv, latestVersion)\n	}\n", "	if uv > latestVersion {\n		if err := setUserVersion(db, latestVersion); err != nil {\n			return err\n		}\n		return fmt.Errorf(\"database user_version %d is newer than supported version %d\", uv, latestVersion)\n	}\n", "refuse-before-touch"},
 		mutation{"migration-no-rollback", "kv/sqlite3/schema.go", "		if err != nil {\n			_ = tx.Rollback()\n		}", "		if err != nil {\n			_ = tx.Commit()\n		}", "migration-tx"},
 		mutation{"partial-schema-migrated", "kv/sqlite3/schema.go", "			if hasObjects {\n				return fmt.Errorf(\"database user_version %d has unexpected partial sqlite schema\", uv)\n			}", "			_ = hasObjects", "refuse-before-touch"},
@@ -926,6 +927,58 @@ func runC24(c *Ctx) {
 		ok := fs.Has(func(fa *Fact) bool { return fa.Kind == FTrue && mg.IsCall(fa.Call, "kv/sqlite3.schemaLooksLikeV1") })
 		c.Ob("refuse-before-touch", "migrate#legacy-only-stamps-version", call.Pos(), ok && mg.Prov(call.Args[1]) == "const:1", "an existing complete v1 schema is accepted by stamping user_version, nothing else")
 	}
+	// the legacy/partial-schema probes must look at every object the v1 migration creates
+	objs := map[string]string{}
+	reObj := regexp.MustCompile("(?i)CREATE\\s+(TABLE|(?:UNIQUE\\s+)?INDEX)\\s+(?:IF\\s+NOT\\s+EXISTS\\s+)?`?([a-z_]+)`?")
+	for name, body := range readRepoGlob(c, "kv/sqlite3/migrations/*.sql") {
+		if !strings.Contains(name, "/0001-") {
+			continue
+		}
+		for _, m := range reObj.FindAllStringSubmatch(stripSQLComments(body), -1) {
+			kind := "table"
+			if strings.Contains(strings.ToUpper(m[1]), "INDEX") {
+				kind = "index"
+			}
+			objs[m[2]] = kind
+		}
+	}
+	c.Floor("objects created by migration 0001", len(objs), 5)
+	for _, probe := range []string{"schemaLooksLikeV1", "schemaHasAnyV1Objects"} {
+		fn := c.Func("kv/sqlite3", "", probe)
+		probed := map[string]string{}
+		for _, call := range fn.CallsTo(true, "kv/sqlite3.tableExists", "kv/sqlite3.indexExists") {
+			kind := "table"
+			if fn.IsCall(call, "kv/sqlite3.indexExists") {
+				kind = "index"
+			}
+			g := fn.enclosing(call)
+			if v, ok := g.ConstVal(call.Args[1]); ok {
+				probed[strings.Trim(v, "\"")] = kind
+				continue
+			}
+			// ranging over a literal list of names
+			if id := g.varOf(call.Args[1]); id != nil {
+				ast.Inspect(fn.Body, func(n ast.Node) bool {
+					rs, ok := n.(*ast.RangeStmt)
+					if !ok || rs.Value == nil || fn.varOf(rs.Value) != id {
+						return true
+					}
+					if cl, ok := rs.X.(*ast.CompositeLit); ok {
+						for _, el := range cl.Elts {
+							if v, ok := fn.ConstVal(el); ok {
+								probed[strings.Trim(v, "\"")] = kind
+							}
+						}
+					}
+					return true
+				})
+			}
+		}
+		for name, kind := range objs {
+			c.Ob("refuse-before-touch", probe+"#probes-"+kind+":"+name, fn.Decl.Pos(), probed[name] == kind, "the schema probe checks every object migration 0001 creates; a database lacking an unprobed object would be stamped as current and never completed (or a partial one not recognised)")
+		}
+	}
+
 	// applyMigration tx
 	am := c.Func("kv/sqlite3", "", "applyMigration")
 	execs := methodCalls(am, false, "Exec")
